@@ -6,7 +6,7 @@ from core import fsutil, vloop
 from e2e import common, run_e2e, runner, scenario
 
 EXPECTED = ["C08_pool_no_transfer", "C08_unchanged_no_body", "C08_download_sets_date", "C08_second_pass_unmodified",
-            "C08_changed_is_fetched"]
+            "C08_changed_is_fetched", "C08_run_exact", "C08_run_canonical", "C08_run_content", "C08_run_idempotent", "C08_transfer_only_if_absent"]
 LEVEL = "proof"
 RULE = ("history = upstream versions V1..Vn (n in 2..4; packages added/removed/upgraded, by-hash toggled, compression variants "
         "and release flavours appearing/disappearing, every change of content changes Last-Modified; also re-publication of the "
@@ -181,6 +181,7 @@ def run_one(chk, sseed, nrepos=1, directed=None):
         for k in kinds[1:]:
             chk.count("version_step_" + k)
     finally:
+        run_e2e.flush_l2(chk, {"scenario_seed": sseed, "directed": directed} if "sseed" in dir() else {})
         for sb in extra:
             sb.destroy()
         w.destroy()
